@@ -357,6 +357,7 @@ class MultiTypeMap(dict):
 
         funcs.reverse()
 
+        writes = []
         parents = []
         for group, (func, codes) in zip(results, funcs):
             tups = (
@@ -365,15 +366,22 @@ class MultiTypeMap(dict):
                 else [(parent, *obj_t_tup) for parent in parents]
             )
             if func is None:
+                err = self.key_error(obj_t_tup, group)
                 for tup in tups:
-                    self.errors[tup] = self.key_error(obj_t_tup, group)
+                    writes.append((self.errors, tup, err))
                 break
             else:
                 for tup in tups:
-                    self[tup] = func
+                    writes.append((self, tup, func))
             if not codes:
                 break
             parents = codes
+
+        # The entry for obj_t_tup itself goes in last: once it is present
+        # nothing is resolved again, so the entries call_next needs must
+        # already be there if this is interrupted or observed midway.
+        for target, tup, value in reversed(writes):
+            target[tup] = value
 
         return True
 
